@@ -11,11 +11,15 @@ import (
 	"io"
 	"math/rand"
 	"os"
+	"runtime"
 	"runtime/debug"
+	"strings"
+	"time"
 	"sort"
 	"unsafe"
 
 	"github.com/RoaringBitmap/roaring/v2"
+	"github.com/RoaringBitmap/roaring/v2/roaring64"
 	"github.com/bits-and-blooms/bitset"
 )
 
@@ -76,6 +80,7 @@ type Event struct {
 	Bufch []int       `json:"bufch"` // registered caller buffers whose bytes changed during this call
 	Aux   bool        `json:"aux"`   // auxiliary Go-side arithmetic checks of this call passed (true when none)
 	Argok bool        `json:"argok"` // caller's argument slice unchanged
+	Gor   int         `json:"gor"`   // goroutines left behind by a Par* call
 	Alias [][2]int    `json:"alias"` // pairs of slots that held the very same *Bitmap after the call (severed afterwards)
 	Probe []ProbeRec  `json:"probe"` // write probes run on structurally suspicious sharing
 }
@@ -93,6 +98,7 @@ type callerBuf struct {
 	bytes []byte
 	hash  uint64
 	dead  bool // scribbled/discarded: no longer monitored
+	orig  []byte
 }
 
 type Exec struct {
@@ -110,13 +116,20 @@ type Exec struct {
 	cover   map[string]int
 	noRep   bool
 	obs     []int
+	// 64-bit family
+	mode64   bool
+	slots64  [NSLOT + 1]*roaring64.Bitmap
+	keep64   []*roaring64.Bitmap
+	keepBufs [][]byte
 }
 
 func newExec(u *Universe, w *bufio.Writer, tr int, seed int64) *Exec {
 	e := &Exec{u: u, w: w, tr: tr, ot: newObjTable(), rng: rand.New(rand.NewSource(seed)), cover: map[string]int{}}
 	for i := 1; i <= NSLOT; i++ {
 		e.slots[i] = roaring.New()
+		e.slots64[i] = roaring64.New()
 	}
+	e.mode64 = u.Bits == 64
 	return e
 }
 
@@ -153,7 +166,7 @@ func hashBytes(b []byte) uint64 {
 }
 
 func (e *Exec) registerBuf(b []byte) *callerBuf {
-	cb := &callerBuf{bytes: b, hash: hashBytes(b)}
+	cb := &callerBuf{bytes: b, hash: hashBytes(b), orig: append([]byte(nil), b...)}
 	cb.id = e.ot.registerBuf(b)
 	e.bufs = append(e.bufs, cb)
 	return cb
@@ -335,6 +348,24 @@ func (e *Exec) run(c Call) *Event {
 	ev := &Event{Call: c, Tr: e.tr, I: e.idx, Post: []SlotAtoms{}, Bad: []SlotMsg{}, Rep: []SlotRep{}, Bufch: []int{}, Aux: true, Argok: true, Alias: [][2]int{}, Probe: []ProbeRec{}}
 	var targets []int
 	e.obs = e.obs[:0]
+	isPar := strings.HasPrefix(c.Op, "Par")
+	g0 := 0
+	if isPar {
+		g0 = runtime.NumGoroutine()
+	}
+	done := make(chan struct{})
+	if isPar {
+		go func() { // watchdog: a parallel aggregate that never returns is reported, not waited for
+			select {
+			case <-done:
+			case <-time.After(120 * time.Second):
+				ev.Panic = "hang: no return within 120s"
+				e.emit(ev)
+				e.w.Flush()
+				os.Exit(0)
+			}
+		}()
+	}
 	func() {
 		defer func() {
 			if r := recover(); r != nil {
@@ -346,8 +377,31 @@ func (e *Exec) run(c Call) *Event {
 				ev.Ret = nil
 			}
 		}()
-		targets = e.do(&ev.Call, ev)
+		if e.mode64 {
+			targets = e.do64(&ev.Call, ev)
+		} else {
+			targets = e.do(&ev.Call, ev)
+		}
 	}()
+	close(done)
+	if isPar {
+		// goroutine census: everything the call started must be gone (allow the runtime a moment)
+		left := 0
+		for try := 0; try < 200; try++ {
+			left = runtime.NumGoroutine() - g0 - 1 // -1: the watchdog itself may not have exited yet
+			if left <= 0 {
+				break
+			}
+			time.Sleep(time.Millisecond)
+		}
+		if left > 0 {
+			left = runtime.NumGoroutine() - g0
+		}
+		if left < 0 {
+			left = 0
+		}
+		ev.Gor = left
+	}
 	if ev.Skip {
 		e.idx--
 		return nil
@@ -357,7 +411,11 @@ func (e *Exec) run(c Call) *Event {
 		b, _ := json.Marshal(c)
 		fmt.Fprintf(os.Stderr, "tr=%d i=%d %s panic=%q\n", e.tr, e.idx, b, ev.Panic)
 	}
-	e.sharingProbe(ev, targets)
+	if e.mode64 {
+		e.sharing64(ev, targets)
+	} else {
+		e.sharingProbe(ev, targets)
+	}
 	// project every slot; log those that changed since last logged and all targets
 	isT := map[int]bool{}
 	for _, t := range targets {
@@ -368,8 +426,14 @@ func (e *Exec) run(c Call) *Event {
 		isO[t] = true
 	}
 	for s := 1; s <= NSLOT; s++ {
-		v := view32(e.slots[s], nil)
-		atoms, bad := e.u.project(v.Set)
+		var vset iset
+		wf64 := true
+		if e.mode64 {
+			vset, wf64 = view64(e.slots64[s])
+		} else {
+			vset = view32(e.slots[s], nil).Set
+		}
+		atoms, bad := e.u.project(vset)
 		if atoms == nil {
 			atoms = []int{}
 		}
@@ -380,7 +444,13 @@ func (e *Exec) run(c Call) *Event {
 		if isT[s] || isO[s] || chg {
 			ev.Post = append(ev.Post, SlotAtoms{s, atoms})
 			if !e.noRep && (isT[s] || chg) {
-				ev.Rep = append(ev.Rep, e.repOf(s))
+				if e.mode64 {
+					r := e.rep64(s)
+					r.Tbl = wf64
+					ev.Rep = append(ev.Rep, r)
+				} else {
+					ev.Rep = append(ev.Rep, e.repOf(s))
+				}
 			}
 		}
 		e.last[s] = atoms
@@ -502,9 +572,6 @@ func (e *Exec) do(c *Call, ev *Event) (targets []int) {
 		return []int{c.X}
 	case "RemoveRange":
 		a, b := e.rangeOf(c.C0, c.C1)
-		if c.V == 1 && b == u.Top+1 {
-			b += uint64(e.rng.Intn(1 << 20)) // ends beyond 2^32 are clamped (documented)
-		}
 		e.bm(c.X).RemoveRange(a, b)
 		return []int{c.X}
 	case "Flip":
@@ -807,20 +874,39 @@ func (e *Exec) sharingProbe(ev *Event, targets []int) {
 		rec    ChunkRec
 	}
 	byPtr := map[uintptr][]ref{}
+	var order []uintptr // deterministic: pointers in order of first appearance
 	for s := 1; s <= NSLOT; s++ {
 		for _, c := range view32(e.slots[s], e.ot).Chunks {
 			if c.Ptr == 0 || c.N == 0 {
 				continue
 			}
+			if _, ok := byPtr[c.Ptr]; !ok {
+				order = append(order, c.Ptr)
+			}
 			byPtr[c.Ptr] = append(byPtr[c.Ptr], ref{s, c})
 		}
 	}
-	sever := map[int]bool{}
+	rebuild := func(slot int, snap iset) {
+		nb := roaring.New()
+		for _, sp := range snap {
+			nb.AddRange(sp.lo, sp.hi+1)
+		}
+		e.slots[slot] = nb
+		e.taint[slot] = false
+	}
+	// probe writes through slot a and observes slot b (or the caller buffers when b == 0). The write is
+	// Remove(v);Add(v); because a leaked write cannot be undone reliably (the writer may have re-typed
+	// its chunk in between), both participants are rebuilt from snapshots taken before the probe when
+	// a leak was witnessed, and scribbled caller buffers are restored from their saved copies.
 	probe := func(a, b int, v uint32) bool {
-		// write through a, observe b (or the caller buffers when b == 0)
 		A := e.slots[a]
 		if !A.Contains(v) {
 			return false
+		}
+		snapA := view32(A, nil).Set
+		var snapB iset
+		if b != 0 {
+			snapB = view32(e.slots[b], nil).Set
 		}
 		A.Remove(v)
 		w := false
@@ -830,9 +916,23 @@ func (e *Exec) sharingProbe(ev *Event, targets []int) {
 			w = !view32(e.slots[b], nil).Set.contains(uint64(v))
 		}
 		A.Add(v)
+		if w {
+			rebuild(a, snapA)
+			if b != 0 {
+				rebuild(b, snapB)
+			} else {
+				for _, cb := range e.bufs {
+					if !cb.dead {
+						copy(cb.bytes, cb.orig)
+					}
+				}
+			}
+		}
 		return w
 	}
-	for _, refs := range byPtr {
+	done := map[[2]int]bool{}
+	for _, ptr := range order {
+		refs := byPtr[ptr]
 		if len(refs) >= 2 {
 			allFlag := true
 			for _, r := range refs {
@@ -841,34 +941,26 @@ func (e *Exec) sharingProbe(ev *Event, targets []int) {
 			if !allFlag {
 				for x := 0; x < len(refs); x++ {
 					for y := 0; y < len(refs); y++ {
-						if x == y || refs[x].slot == refs[y].slot {
+						if x == y || refs[x].slot == refs[y].slot || done[[2]int{refs[x].slot, refs[y].slot}] || done[[2]int{refs[y].slot, refs[x].slot}] {
 							continue
 						}
 						w := probe(refs[x].slot, refs[y].slot, uint32(refs[x].rec.First))
 						ev.Probe = append(ev.Probe, ProbeRec{refs[x].slot, refs[y].slot, w})
 						if w {
-							sever[refs[y].slot] = true
+							done[[2]int{refs[x].slot, refs[y].slot}] = true
 						}
 					}
 				}
 			}
 		}
 		for _, r := range refs {
-			if r.rec.M != 0 && !r.rec.S {
+			if r.rec.M != 0 && !r.rec.S && !done[[2]int{r.slot, 0}] {
 				w := probe(r.slot, 0, uint32(r.rec.First))
 				ev.Probe = append(ev.Probe, ProbeRec{r.slot, 0, w})
 				if w {
-					sever[r.slot] = true
+					done[[2]int{r.slot, 0}] = true
 				}
 			}
 		}
-	}
-	for s := range sever {
-		nb := roaring.New()
-		for _, sp := range view32(e.slots[s], nil).Set {
-			nb.AddRange(sp.lo, sp.hi+1)
-		}
-		e.slots[s] = nb
-		e.taint[s] = false
 	}
 }
